@@ -26,7 +26,9 @@ func (core *JApiCore) processContext(d *directive.Directive, root *[]*directive.
 				core.currentContextDirective.Type() == directive.URL
 
 			if isURL {
-				if core.currentContextDirective.HasExplicitContext {
+				// The method becomes a top-level directive, so it must not leave any
+				// explicitly opened context, not only the one of the URL itself.
+				if core.HasUnclosedExplicitContext() {
 					return d.KeywordError(fmt.Sprintf(
 						"%s %q with the \"Path\" parameter",
 						jerr.IncorrectContextOfDirective,
